@@ -205,6 +205,29 @@ def has_letvalue_and_qr(cr, f):
     return has_lv
 
 
+def zipped_in_order(cr, f):
+    """the function zips parameter_names (receiver) with the call's parameters (argument), both iterated from the start"""
+    from rules.c04 import receiver_field
+    from rules.c08 import trace_to_call
+    for bi, t in M.iter_calls(f):
+        if M.norm_path(t["fn"].get("decl", "")) != "std::iter::Iterator::zip" or len(t["args"]) != 2:
+            continue
+        sides = []
+        for x in t["args"]:
+            c = trace_to_call(f, x)
+            fld = None
+            if c is not None and M.norm_path(c["fn"].get("path", "")).endswith("::iter") and c["args"]:
+                fld = receiver_field(cr, f, c["args"][0])
+                if fld is None:
+                    c2 = trace_to_call(f, c["args"][0])
+                    if c2 is not None and c2["args"]:
+                        fld = receiver_field(cr, f, c2["args"][0])
+            sides.append(fld)
+        if sides == ["parameter_names", "parameters"]:
+            return True
+    return False
+
+
 def parameter_binding(ctx, cr):
     rule = "R-C15-parameter-binding"
     key = "rules::eval::eval_parameterized_rule_call"
@@ -226,7 +249,16 @@ def parameter_binding(ctx, cr):
             if decl == "std::iter::Iterator::next" and term.get("to") is not None:
                 if mon.get("it", 0) >= 1:
                     return [(("enum", ai.OPTION, 0, ()), mon)]
-                return [(("enum", ai.OPTION, 1, (("tuple", (("sym", "IDX"), ("ref", ("X", "ARGCELL"), ()))),)), mon.set(it=1)), (("enum", ai.OPTION, 0, ()), mon)]
+                # the loop pairs argument i with parameter name i either by index (enumerate + parameter_names[idx]) or by walking both
+                # lists in lockstep (parameter_names.iter().zip(parameters.iter())): the item's first component tells which
+                first = ("sym", "IDX")
+                ty, _ = M.place_ty(cr, None, term["dest"], st.top.body)
+                inner = ty.args()[0] if ty is not None and ty.args() else None
+                if inner is not None and inner.kind == "tuple" and inner.t.get("e"):
+                    t0 = inner.field(None, 0)
+                    if t0.kind == "ref" and (t0.strip_refs().adt_path() or "").endswith("String"):
+                        first = ("ref", ("X", "NAME_AT(?IDX)" if zipped_in_order(cr, f) else "NAME_OF_UNKNOWN_POSITION"), ())
+                return [(("enum", ai.OPTION, 1, (("tuple", (first, ("ref", ("X", "ARGCELL"), ()))),)), mon.set(it=1)), (("enum", ai.OPTION, 0, ()), mon)]
             if decl in ("std::ops::Index::index",) and len(args) == 2:
                 return [(("ref", ("X", "NAME_AT(%s)" % ai.fmt_val(a.resolve(st, args[1]))), ()), mon)]
             if p.endswith("HashMap::insert") and len(args) == 3:
